@@ -316,9 +316,9 @@ class Transaction(EmbitBase):
         sh, anyonecanpay = SIGHASH.check(sighash)
         if sh == SIGHASH.DEFAULT:
             sh = SIGHASH.ALL
-        # no corresponding output for this input, we sign 00...01
+        # no corresponding output for this input, we sign uint256 one (little endian)
         if sh == SIGHASH.SINGLE and input_index >= len(self.vout):
-            return b"\x00" * 31 + b"\x01"
+            return b"\x01" + b"\x00" * 31
 
         h = hashlib.sha256()
         h.update(self.version.to_bytes(4, "little"))
